@@ -446,7 +446,7 @@ class ParsersWorld:
     def gen_c15(self, seed, tier="quick", gran=None):
         rs, ro, rw, rf = (core.stream(seed, n) for n in ("swarm", "ops", "workload", "faults"))
         if gran is None:
-            gran = rs.choice(["O", "S", "S", "S", "S", "L"] if tier == "quick" else ["O", "S", "S", "L", "L", "L"])
+            gran = rs.choice(["O", "S", "S", "L"] if tier == "quick" else ["O", "S", "S", "L", "L", "L"])
         else:
             rs.random()
         k = rs.choice([2, 2, 3, 3, 4])
@@ -529,7 +529,16 @@ class ParsersWorld:
                 if len(runs) == 1:
                     runs.append(dict(runs[0]))
             tasks.append(task)
-        if rs.random() < (0.6 if gran == "L" else 0.3):
+        arm = rs.random()
+        if arm > (0.7 if gran == "L" else 0.85):
+            # every object renders in the SAME dialect and is its first user in the process: overlapping first uses of
+            # lazily initialised per-dialect state
+            m = rs.choice(self.modes)
+            for t in tasks:
+                for kw in t["runs"]:
+                    kw["output_mode"] = m
+            swarm["same_mode"] = m
+        elif arm < (0.4 if gran == "L" else 0.3):
             # every object renders in ANOTHER dialect: interference through shared formatting state (dialect classes,
             # clean-up helpers) shows as one object's tables shaped by another object's output_mode
             modes = rs.sample([m for m in self.modes if m != "sql"], min(len(tasks), len(self.modes) - 1))
